@@ -45,6 +45,9 @@ def main():
     from .. import tracelife
     tw = worlds if thorough else [("EOF", True, False, True), ("POP", True, False, True), ("CPCCA", False, True, False), ("MCA", True, False, True)]
     findings += tracelife.run(rep, tw, num=40 if thorough else 8, depth=18 if thorough else 14, seed=rep.seed, procs=a.procs)
+    # the preprocessing chain stage by stage (XPrepStages): which call wrote which piece of state
+    from .. import prepstages
+    findings += prepstages.run(rep, rep.tier, rep.seed)
     liferun.report_findings(rep, findings, TAGS)
     # non-vacuity: each deviation the invariants are meant to exclude gives a counterexample
     for cap, dev in C14_DEVS:
